@@ -232,6 +232,10 @@ def load_hdf5(path, meta_only=False):
             dataset_dict = {}
             for dkey in h5["data"]:
                 dset = h5["data"][dkey]
+                if "path" not in dset.attrs:
+                    # Incomplete raw data (a save was interrupted); no
+                    # rating can refer to it.
+                    continue
                 dbin = dset[...]
                 name = dkey + "_" + pathlib.Path(dset.attrs["path"]).name
                 dpath = pathlib.Path(tdir) / name
@@ -309,6 +313,10 @@ def save_hdf5(h5path, indent, user_rate, user_name, user_comment, h5mode="a"):
         # store raw experimental data as binary array
         data = h5.require_group("data")
         dhash = hash_file(indent.path)
+        if dhash in data and "path" not in data[dhash].attrs:
+            # Incomplete raw data (a previous save was interrupted);
+            # start over.
+            del data[dhash]
         if dhash not in data:
             meas = data.create_dataset(
                 dhash,
